@@ -252,8 +252,9 @@ static int run_child(long idx, vcase_fn fn, void *arg, int watchdog_s, pid_t *pi
     }
 }
 
-static int n_bad_cases;
-bool vstop_early(void) { return n_bad_cases >= 3; }
+static int n_bad_cases, n_hung_cases; static bool stop_on_hangs_only;
+void vstop_early_hangs_only(bool on) { stop_on_hangs_only = on; }
+bool vstop_early(void) { return stop_on_hangs_only ? n_hung_cases >= 2 : n_bad_cases >= 3; }
 
 int vfork_case(long idx, vcase_fn fn, void *arg, int watchdog_s, const char *clsname)
 {
@@ -268,7 +269,7 @@ int vfork_case(long idx, vcase_fn fn, void *arg, int watchdog_s, const char *cls
             printf("{\"t\":\"exit\",\"case\":%ld,\"pid\":%d,\"status\":\"timeout\",\"cls\":\"%s\"}\n",
                    idx, (int)pid, clsname);
             fflush(stdout);
-            n_bad_cases++;
+            n_bad_cases++; n_hung_cases++;
             return -1;
         }
     }
